@@ -73,6 +73,19 @@ def screenLoop (alpha beta tol : K) (maxIt : Nat) (phys : V → V) (kern : V →
 
 end loop
 
+/-- `TDGLSolver.solve`: the induced vector potential a run STARTS from.  A fresh run starts from zero; a run continued from
+    a seed solution starts from the seed's induced potential when screening is on and from zero when it is off
+    (`/repo` afab2ac; `initialInducedOld` is what the code did before: the seed's potential whatever the option). -/
+def initialInduced [OfNat K 0] (screening : Bool) (seed : Option (Nat → K)) : Nat → K :=
+  match seed with
+  | none => fun _ => 0
+  | some a => if screening then a else fun _ => 0
+
+def initialInducedOld [OfNat K 0] (seed : Option (Nat → K)) : Nat → K :=
+  match seed with
+  | none => fun _ => 0
+  | some a => a
+
 /-- without screening the loop body runs once and the induced potential is returned untouched -/
 def noScreenStep {S : Type} (phys : S → (Nat → K) → S) (s : S) (A : Nat → K) : S × (Nat → K) := (phys s A, A)
 
